@@ -48,6 +48,8 @@ def build_concrete(spec):
     fluid = "water" if spec.get("fluid", "water") == "water" else spec.get("gasname", "lgas")
     net = pp.create_empty_network(fluid=fluid)
     nj = spec["nj"]
+    # nominal loads: small for gases (a 100 mm pipe at 5 bar chokes at a few 0.1 kg/s)
+    qs = 1.0 if spec.get("fluid", "water") == "water" else 0.08
     jis = spec.get("jis") or [True] * nj
     jh = spec.get("jh") or [0.0] * nj
     order = spec.get("jorder") or list(range(nj))
@@ -64,10 +66,10 @@ def build_concrete(spec):
             pp.create_ext_grid(net, J("j"), p_bar=e.pop("p_bar", 5.0), t_k=e.pop("t_k", 330.0),
                                type=e.pop("type", "pt"), in_service=ins, index=idx)
         elif t in ("sink", "source"):
-            getattr(pp, "create_" + t)(net, J("j"), mdot_kg_per_s=e.pop("mdot", 0.3 + 0.1 * k),
+            getattr(pp, "create_" + t)(net, J("j"), mdot_kg_per_s=e.pop("mdot", (0.3 + 0.1 * k) * qs),
                                        scaling=e.pop("scaling", 1.0), in_service=ins, index=idx)
         elif t == "mass_storage":
-            pp.create_mass_storage(net, J("j"), mdot_kg_per_s=e.pop("mdot", 0.2), scaling=e.pop("scaling", 1.0),
+            pp.create_mass_storage(net, J("j"), mdot_kg_per_s=e.pop("mdot", 0.2 * qs), scaling=e.pop("scaling", 1.0),
                                    in_service=ins, index=idx)
         elif t == "pipe":
             pp.create_pipe_from_parameters(
@@ -106,7 +108,7 @@ def build_concrete(spec):
                                        control_active=e.pop("control_active", True),
                                        loss_coefficient=e.pop("zeta", 0.0), in_service=ins, index=idx)
         elif t == "flow_control":
-            pp.create_flow_control(net, J("f"), J("to"), controlled_mdot_kg_per_s=e.pop("mdot", 0.4),
+            pp.create_flow_control(net, J("f"), J("to"), controlled_mdot_kg_per_s=e.pop("mdot", 0.4 * qs),
                                    control_active=e.pop("control_active", True), in_service=ins, index=idx)
         elif t == "heat_exchanger":
             pp.create_heat_exchanger(net, J("f"), J("to"), qext_w=e.pop("qext_w", 5000.0),
